@@ -162,7 +162,7 @@ def _hashable(x):
 def dunder(world, it, o: Obj, name: str, args, node):
     """call the view's `name` the way python would: the repository's own definition if
     the class (or a repository base) has one, the networkx base otherwise"""
-    m = it.prog.lookup_method(o.cls, name)
+    m = it.find_method(o.cls, name)
     if m is not None:
         return it.call_function(FuncV(m, o, defcls=m.cls), list(args), {}, node)
     b = base_method(world, it, o, name, node)
